@@ -126,10 +126,13 @@ def main():
     ents = list(range(len(cases)))
 
     def ex(i, names):
-        return "(%d, 0, [b2z (legal %s); 7])" % (i, S.to_coq(cases[i][2], names))
+        return "(%d, 0, accept_flags %s)" % (i, S.to_coq(cases[i][2], names))
 
     files = codec.write_case_files(work, "legal", ents, ex, chunk=300)
-    legal = {i: r[0] == 1 for i, _, r in codec.eval_case_files(files)}
+    flags = {i: r for i, _, r in codec.eval_case_files(files)}
+    legal = {i: r[0] == 1 for i, r in flags.items()}
+    model_accepts = {i: r[1] == 1 for i, r in flags.items()}
+    chk.coverage["front_end_model_compared"] = 0
     acc = 0
     for i, (stream, label, t) in enumerate(cases):
         chk.count()
@@ -137,6 +140,13 @@ def main():
         r = pyres.get(i, {})
         pu = usable(r)
         case = {"label": label, "schema_text": S.to_prophy(t), "schema": t, "spec_legal": legal.get(i)}
+        # the tie of props/C12.v: the verdict of the real front-end against the model's (pc_accepts, evaluated in Coq)
+        chk.coverage["front_end_model_compared"] += 1
+        if (pu is not None) != model_accepts.get(i):
+            chk.violation("model-%d" % i, dict(case, kind="broken correspondence: prophyc %s the schema, model/PcValidate.v pc_accepts says %s"
+                                               % ("accepts" if pu is not None else "rejects", model_accepts.get(i)),
+                                               detail=r.get("compile_error", "")[:300]),
+                          "" if (pu is not None) != legal.get(i) else "no-failing-input-found", match=False)
         if pu is None:
             # prophyc refused the schema: fine for C12 unless the documented rules (Coq `legal`) allow it
             if legal.get(i):
@@ -181,13 +191,17 @@ def main():
                            S.mk_struct(nm('X'), [('u', 'plain', S.mk_union(nm('U'), [(0, 'a', sc('u8')), (1, 'b', t)]))])))
 
     def bex(i, names):
-        return "(%d, 0, [b2z (legal %s); 7])" % (i, S.to_coq(bcases[i][1], names))
+        return "(%d, 0, accept_flags %s)" % (i, S.to_coq(bcases[i][1], names))
 
     files = codec.write_case_files(work, "illegal", list(range(len(bcases))), bex, chunk=300)
-    blegal = {i: r[0] == 1 for i, _, r in codec.eval_case_files(files)}
+    bflags = {i: r for i, _, r in codec.eval_case_files(files)}
+    blegal = {i: r[0] == 1 for i, r in bflags.items()}
+    bmodel = {i: r[1] == 1 for i, r in bflags.items()}
     texts = []
+    model_of_text = {}
     for i, (rule, t) in enumerate(bcases):
         try:
+            model_of_text[S.to_prophy(t)] = bmodel.get(i)
             texts.append((rule, S.to_prophy(t), t[1], blegal.get(i), t))
             if "[" not in rule:
                 # the documented rules do not depend on typedef indirection: the same breaker with every member
@@ -217,6 +231,14 @@ def main():
     for rule, text, isl, r, imp, t in F.pmap(run_b, texts):
         chk.count()
         chk.seen_class(("breaker", re.sub(r" \[.*", "", rule)), True)
+        if text in model_of_text and not r["timeout"]:
+            chk.coverage["front_end_model_compared"] += 1
+            if (r["rc"] == 0) != model_of_text[text]:
+                chk.violation("model-b-%s" % re.sub(r"[^a-z0-9]+", "-", rule.lower())[:50],
+                              {"kind": "broken correspondence: prophyc %s the schema, model/PcValidate.v pc_accepts says %s"
+                                       % ("accepts" if r["rc"] == 0 else "rejects", model_of_text[text]),
+                               "rule_instance": rule, "schema_text": text, "schema": t, "stderr": r["stderr"][-300:]},
+                              "" if (r["rc"] == 0) != bool(isl) else "no-failing-input-found", match=False)
         if isl:
             continue        # the edit did not break a documented rule after all (spec says legal)
         if r["rc"] == 0 and not r["timeout"]:
@@ -232,11 +254,12 @@ def main():
                             "refusal excepted) and both generated C++ translation units must compile with g++ against the shipped headers; a "
                             "schema the Coq spec `legal` accepts must not be refused. (2) rule breakers — one documented composability rule "
                             "broken per schema (hand-built matrix, edits of generated schemas, text-only cases such as duplicate names) and "
-                            "confirmed illegal by the Coq spec — must be rejected by prophyc with a diagnostic.")
+                            "confirmed illegal by the Coq spec — must be rejected by prophyc with a diagnostic. Every verdict of the real front-end is also "
+                            "compared with the model pc_accepts (model/PcValidate.v) evaluated inside Coq: the tie of the theorems of props/C12.v.")
     chk.sample({"rule": texts[0][0], "schema": texts[0][1]})
     chk.sample({"rule": texts[-1][0], "schema": texts[-1][1]})
     chk.assumptions += ["that g++ accepts the generated text is observed, never proved"]
-    return chk.finish(level="exploration")
+    return chk.finish(level="proof")
 
 
 if __name__ == "__main__":
